@@ -166,8 +166,9 @@ def translate(repo=None):
   lines.append("  | _ => 0\n  end.")
   for p in MASK_PREDICATES:
     lines.append(f"Definition m_{p} : N := {masks[p]}.")
-  for sp in SPECIAL:
-    lines.append(f"Definition op_{sp} : N := {ids[sp]}.")
+  # a name for every class id (the ones in SPECIAL are what blocks.py / opcodes.py test with isinstance)
+  for n, _ in classes:
+    lines.append(f"Definition op_{n} : N := {ids[n]}.")
   lines.append("")
   table = {"classes": classes, "masks": masks, "special": {sp: ids[sp] for sp in SPECIAL}, "ids": ids}
   return "\n".join(lines), table
